@@ -46,8 +46,13 @@ type c02Run struct {
 	seq       int
 	paired    bool
 	wrongCode string
+	idL       refctl.Identity // the legitimate controller's identity in this system
 	fail      func(sig, desc string)
 }
+
+// with the second setup code the legitimate controller has a 124-byte identifier (the longest whose entity file
+// name is legal) with letters of both cases
+var c02LongL = refctl.NewIdentity(strings.Repeat("Controller-With-A-Long-Name/", 5)[:124], "legit-L-long")
 
 func (r *c02Run) conn(name string) *c02Conn {
 	cn := r.conns[name]
@@ -163,9 +168,9 @@ func (r *c02Run) step(ev string) bool {
 	case "M5-genuine":
 		var body []byte
 		if ctx.SRP != nil && ctx.EncKey != nil {
-			body = ctx.M5(idL)
+			body = ctx.M5(r.idL)
 		} else {
-			body = refctl.M5Sealed(refctl.Seed32("no-key"), refctl.M5Sub(nil, idL))
+			body = refctl.M5Sealed(refctl.Seed32("no-key"), refctl.M5Sub(nil, r.idL))
 		}
 		cn.m5 = body
 		expectStore = stage == 2
@@ -207,9 +212,9 @@ func (r *c02Run) step(ev string) bool {
 		l := r.conns["L"]
 		var body []byte
 		if l != nil && l.setup != nil && l.setup.SRP != nil && l.setup.EncKey != nil {
-			body = l.setup.M5(idL)
+			body = l.setup.M5(r.idL)
 		} else {
-			body = refctl.M5Sealed(refctl.Seed32("no-key"), refctl.M5Sub(nil, idL))
+			body = refctl.M5Sealed(refctl.Seed32("no-key"), refctl.M5Sub(nil, r.idL))
 		}
 		m, err = post(body)
 		if cls, isErr, t := c02Class(m, err); !isErr && len(t[refctl.TagEncrypted]) > 0 {
@@ -291,7 +296,7 @@ func (r *c02Run) checkStore(ev string) bool {
 	}
 	want := map[string][]byte{r.b.AccID: r.b.AccLTPK}
 	if r.paired {
-		want[idL.ID] = idL.Pub
+		want[r.idL.ID] = r.idL.Pub
 	}
 	var extra, changed []string
 	got := map[string]bool{}
@@ -355,7 +360,10 @@ func c02ExecPin(c *fw.Ctx, pin string, hist []string) bool {
 	if pin == other {
 		other = c02Pins[1]
 	}
-	r := &c02Run{c: c, b: b, conns: map[string]*c02Conn{}, wrongCode: formatPin(other)}
+	r := &c02Run{c: c, b: b, conns: map[string]*c02Conn{}, wrongCode: formatPin(other), idL: idL}
+	if pin == c02Pins[1] {
+		r.idL = c02LongL
+	}
 	failed := false
 	r.fail = func(sig, desc string) {
 		failed = true
